@@ -82,12 +82,12 @@ Print Assumptions C04_motor_sleeps_nonneg.
 (* ---- out-of-range speeds (clamp clause: "clamped on the device to the documented limits") ---- *)
 
 (* the guard places no condition on the value of a speed: every number is inside it *)
-Theorem C04_motor_guard_admits_every_speed : forall m v t d,
+Theorem C04_motor_guard_accepts_every_speed : forall m v t d,
   num_ok v = true -> num_ok t = true -> dur_ok d = true ->
   motor_in_range m (MSetSpeed v) = true /\ motor_in_range m (MBackward (Some v)) = true /\
   motor_in_range m (MRamp t d) = true /\ motor_in_range m (MRunFor d v) = true.
 Proof. exact motor_guard_any_speed. Qed.
-Print Assumptions C04_motor_guard_admits_every_speed.
+Print Assumptions C04_motor_guard_accepts_every_speed.
 
 (* on the device a command with an out-of-range speed IS the command with the documented limit: same events, same state, same
    getters - for set_speed, backward, run_for and, for ramp, all 20 interpolation steps (the target is clamped before interpolating) *)
